@@ -143,12 +143,264 @@ def const_u(path, name, ty):
     if not m:
         raise ExtractError(f"{os.path.relpath(path, REPO)}: `const {name}: {ty} = <literal>;` not found")
     return int(m.group(1).replace("_", ""))
+# ---------------------------------------------------------------------------------------------
+# C08 / C18: header-size and bit-position constants, checksum and flag-constructor kernels
+# ---------------------------------------------------------------------------------------------
+
+def parse_int(tok):
+    t = tok.replace("_", "")
+    for suf in ("u8", "u16", "u32", "u64", "usize"):
+        if t.endswith(suf) and t[:-len(suf)] and t[:-len(suf)][-1].isalnum() and not t.startswith("0x"):
+            t = t[:-len(suf)]
+    if t.startswith("0x"):
+        return int(t, 16)
+    if t.startswith("0b"):
+        return int(t, 2)
+    return int(t)
+
+
+def const_value(src, name, env):
+    """`const NAME: T = expr;` where expr is a literal, or NAME [as T] * literal"""
+    m = re.search(r"const\s+%s\s*:\s*\w+\s*=\s*([^;]+);" % name, src)
+    if not m:
+        raise ExtractError(f"constant {name} not found")
+    e = m.group(1).strip()
+    mm = re.fullmatch(r"(\w+)(?:\s+as\s+\w+)?\s*\*\s*(\w+)", e)
+    if mm and mm.group(1) in env:
+        return env[mm.group(1)] * parse_int(mm.group(2))
+    try:
+        return parse_int(e)
+    except ValueError:
+        raise ExtractError(f"constant {name}: unsupported initialiser `{e}`")
+
+
+def require(src, pattern, what):
+    """a literal site must be present exactly once (fail closed); returns the match"""
+    ms = list(re.finditer(pattern, src))
+    if len(ms) != 1:
+        raise ExtractError(f"literal site `{what}`: expected exactly one match of /{pattern}/, found {len(ms)}")
+    return ms[0]
+
+
+def fn_body(src, header_re, what):
+    m = re.search(header_re + r"\s*\{", src)
+    if not m:
+        raise ExtractError(f"function {what} not found")
+    i = m.end()
+    depth = 1
+    j = i
+    while depth:
+        if j >= len(src):
+            raise ExtractError(f"function {what}: unbalanced braces")
+        depth += {"{": 1, "}": -1}.get(src[j], 0)
+        j += 1
+    return " ".join(src[i:j - 1].split())
+
+
+TOK = re.compile(r"\s*(?:(0x[0-9a-fA-F_]+|0b[01_]+|\d[\d_]*(?:u8|u16)?)|([A-Za-z_][A-Za-z0-9_]*(?:\.0)?)|(<<|>>|[|&!+()]))")
+
+
+class Expr:
+    """tiny grammar: literals, identifiers (bool or unsigned), `!x` on bool, `x as uN`,
+    `<< >> | & +` on a fixed unsigned width; everything else is refused"""
+
+    def __init__(self, text, width, bools):
+        self.t = []
+        i = 0
+        while i < len(text):
+            m = TOK.match(text, i)
+            if not m:
+                if text[i:].strip() == "":
+                    break
+                raise ExtractError(f"kernel expression: cannot tokenise `{text[i:i + 20]}`")
+            i = m.end()
+            self.t.append(m.group(1) or m.group(2) or m.group(3))
+        self.i = 0
+        self.w = width
+        self.bools = bools
+
+    def peek(self):
+        return self.t[self.i] if self.i < len(self.t) else None
+
+    def eat(self, v=None):
+        k = self.peek()
+        if k is None or (v is not None and k != v):
+            raise ExtractError(f"kernel expression: expected {v}, got {k}")
+        self.i += 1
+        return k
+
+    def parse(self):
+        e = self.or_()
+        if self.peek() is not None:
+            raise ExtractError(f"kernel expression: trailing `{self.peek()}`")
+        return e
+
+    # Rust precedence: | < & < << >> < + < as < unary
+    def or_(self):
+        l = self.and_()
+        while self.peek() == "|":
+            self.eat()
+            l = f"({l} ||| {self.and_()})"
+        return l
+
+    def and_(self):
+        l = self.shift()
+        while self.peek() == "&":
+            self.eat()
+            l = f"({l} &&& {self.shift()})"
+        return l
+
+    def shift(self):
+        l = self.add()
+        while self.peek() in ("<<", ">>"):
+            op = self.eat()
+            r = self.add()
+            l = f"(({l} <<< {r}) % {2 ** self.w})" if op == "<<" else f"({l} >>> {r})"
+        return l
+
+    def add(self):
+        l = self.cast()
+        while self.peek() == "+":
+            self.eat()
+            l = f"({l} + {self.cast()})"
+        return l
+
+    def cast(self):
+        e, is_bool = self.unary()
+        while self.peek() == "as":
+            self.eat()
+            ty = self.eat()
+            if ty not in ("u8", "u16"):
+                raise ExtractError(f"kernel expression: cast to {ty}")
+            e = f"(Bool.toNat {e})" if is_bool else f"({e} % {2 ** int(ty[1:])})"
+            is_bool = False
+        if is_bool:
+            raise ExtractError("kernel expression: bool used as a number")
+        return e
+
+    def unary(self):
+        k = self.eat()
+        if k == "!":
+            e, b = self.unary()
+            if not b:
+                raise ExtractError("kernel expression: `!` on a number")
+            return f"(!{e})", True
+        if k == "(":
+            e = self.or_()
+            self.eat(")")
+            return e, False
+        if re.match(r"\d|0x|0b", k):
+            return str(parse_int(k)), False
+        if re.match(r"[A-Za-z_]", k):
+            name = k.replace(".", "_")
+            return name, name in self.bools
+        raise ExtractError(f"kernel expression: unexpected `{k}`")
+
+
+def codec_extract():
+    ip = strip_comments(read(os.path.join(CORE, "protocols", "ipv4", "ipv4_parsing.rs"))).split("#[cfg(test)]")[0]
+    ud = strip_comments(read(os.path.join(CORE, "protocols", "udp", "udp_parsing.rs"))).split("#[cfg(test)]")[0]
+    tc = strip_comments(read(os.path.join(CORE, "protocols", "tcp", "tcp_parsing.rs"))).split("#[cfg(test)]")[0]
+    ut = strip_comments(read(os.path.join(CORE, "protocols", "utility.rs"))).split("#[cfg(test)]")[0]
+    c = {}
+    c["ipv4_BASE_WORDS"] = const_value(ip, "BASE_WORDS", {})
+    c["ipv4_BASE_OCTETS"] = const_value(ip, "BASE_OCTETS", {"BASE_WORDS": c["ipv4_BASE_WORDS"]})
+    c["ipv4_FRAGMENT_OFFSET_MASK"] = const_value(ip, "FRAGMENT_OFFSET_MASK", {})
+    c["udp_HEADER_OCTETS"] = const_value(ud, "HEADER_OCTETS", {})
+    c["tcp_BASE_HEADER_WORDS"] = const_value(tc, "BASE_HEADER_WORDS", {})
+    c["tcp_BASE_HEADER_OCTETS"] = const_value(tc, "BASE_HEADER_OCTETS", {"BASE_HEADER_WORDS": c["tcp_BASE_HEADER_WORDS"]})
+    # literal sites of the decoders / encoders (shift amounts, masks, protocol numbers)
+    sites = [
+        ("ipv4_version_shift", ip, r"let version = version_and_ihl >> (\w+);"),
+        ("ipv4_version", ip, r"if version != (\w+) \{"),
+        ("ipv4_ihl_mask", ip, r"let ihl = version_and_ihl & (\w+);"),
+        ("ipv4_tos_reserved_mask", ip, r"let reserved = type_of_service_byte & (\w+);"),
+        ("ipv4_flags_shift", ip, r"let control_flag_bits = \(flags_and_fragment_offset_bytes >> (\w+)\) as u8;"),
+        ("ipv4_reserved_flag_mask", ip, r"if control_flag_bits & (\w+) != 0 \{"),
+        ("ipv4_build_version", ip, r"let version_and_ihl = \((\w+) << 4\) \| BASE_WORDS;"),
+        ("ipv4_build_flags_shift", ip, r"\(\(self\.flags\.as_u8\(\) as u16\) << (\w+)\) \| \(self\.fragment_offset & FRAGMENT_OFFSET_MASK\)"),
+        ("ipv4_tos_precedence_shift", ip, r"\(self\.0 >> (\w+)\)\.try_into\(\)\.unwrap\(\)"),
+        ("ipv4_tos_delay_shift", ip, r"fn delay\(&self\) -> Delay \{\s*\(\(self\.0 >> (\w+)\) & 0b1\)"),
+        ("ipv4_tos_throughput_shift", ip, r"fn throughput\(&self\) -> Throughput \{\s*\(\(self\.0 >> (\w+)\) & 0b1\)"),
+        ("ipv4_tos_reliability_shift", ip, r"fn reliability\(&self\) -> Reliability \{\s*\(\(self\.0 >> (\w+)\) & 0b1\)"),
+        ("ipv4_may_fragment_mask", ip, r"fn may_fragment\(&self\) -> bool \{\s*self\.0 & (\w+) == 0"),
+        ("ipv4_last_fragment_mask", ip, r"fn is_last_fragment\(&self\) -> bool \{\s*self\.0 & (\w+) == 0"),
+        ("udp_protocol_number", ud, r"checksum\.add_u8\(0, (\w+)\);\s*checksum\.accumulate_remainder"),
+        ("udp_build_protocol_number", ud, r"checksum\.add_u8\(0, (\w+)\);\s*checksum\.add_u16\(source_port\);"),
+        ("tcp_data_offset_shift", tc, r"let data_offset = offset_reserved_control\[0\] >> (\w+);"),
+        ("tcp_control_mask", tc, r"let ctl = Control::from\(offset_reserved_control\[1\] & (\w+)\);"),
+        ("tcp_serialize_offset_shift", tc, r"out\.push\(self\.data_offset << (\w+)\);"),
+        ("tcp_build_offset_shift", tc, r"checksum\.add_u8\(data_offset << (\w+), self\.0\.ctl\.into\(\)\);"),
+        ("tcp_protocol_number", tc, r"checksum\.add_u8\(0, (\w+)\);\s*checksum\.add_u16\(\s*packet_len"),
+        ("tcp_build_protocol_number", tc, r"checksum\.add_u8\(0, (\w+)\);\s*checksum\.add_u16\(length\);"),
+        ("tcp_bytes_factor", tc, r"self\.data_offset \* (\w+)"),
+    ]
+    for name, src, pat in sites:
+        c[name] = parse_int(require(src, pat, name).group(1))
+    # Precedence / Delay / Throughput / Reliability discriminants must be the numeric value
+    for variant, val in (("NetworkControl", 7), ("Routine", 0), ("Flash", 3)):
+        m = require(ip, r"\b%s = (\w+)," % variant, "Precedence::" + variant)
+        if parse_int(m.group(1)) != val:
+            raise ExtractError(f"Precedence::{variant} discriminant changed")
+    lines = ["-- GENERATED from /repo sources by tools/extract.py on every check; do not edit",
+             "-- header-size / bit-position constants and one-expression kernels of the IPv4, UDP, TCP codecs",
+             "namespace Elvis.Gen.Codec"]
+    for k in sorted(c):
+        lines.append(f"def {k} : Nat := {c[k]}")
+    # --- kernels ---
+    # Checksum::add_u16 (feature on)
+    body = fn_body(ut, r'#\[cfg\(feature = "compute_checksum"\)\]\s*pub fn add_u16\(&mut self, value: u16\)', "Checksum::add_u16")
+    m = re.fullmatch(r"let \((\w+), (\w+)\) = self\.0\.overflowing_add\(value\); self\.0 = (.+);", body)
+    if not m:
+        raise ExtractError(f"Checksum::add_u16: body outside the kernel grammar: `{body}`")
+    s_, c_, rhs = m.groups()
+    e = Expr(rhs, 16, {c_}).parse()
+    lines += ["/-- `Checksum::add_u16` (compute_checksum): the value assigned to `self.0`, before the overflow check of the `+` -/",
+              "def add_u16 (self_0 value : Nat) : Nat :=",
+              f"  let {s_} := (self_0 + value) % 65536",
+              f"  let {c_} := decide (self_0 + value ≥ 65536)",
+              f"  {e}"]
+    body = fn_body(ut, r'#\[cfg\(feature = "compute_checksum"\)\]\s*pub fn as_u16\(&self\) -> u16', "Checksum::as_u16")
+    m = re.fullmatch(r"match self\.0 \{ (\w+) => (\w+), (\w+) => !(\w+), \}", body)
+    if not m or m.group(3) != m.group(4):
+        raise ExtractError(f"Checksum::as_u16: body outside the kernel grammar: `{body}`")
+    lines += ["/-- `Checksum::as_u16` (compute_checksum); `!x` on `u16` is `65535 - x` -/",
+              "def as_u16 (self_0 : Nat) : Nat :=",
+              f"  if self_0 = {parse_int(m.group(1))} then {parse_int(m.group(2))} else 65535 - self_0"]
+    body = fn_body(ut, r'#\[cfg\(not\(feature = "compute_checksum"\)\)\]\s*pub fn as_u16\(&self\) -> u16', "Checksum::as_u16 (off)")
+    lines += ["/-- `Checksum::as_u16` with the feature off -/", f"def as_u16_off : Nat := {parse_int(body)}"]
+    body = fn_body(ut, r'#\[cfg\(not\(feature = "compute_checksum"\)\)\]\s*pub fn add_u16\(&mut self, _value: u16\)', "Checksum::add_u16 (off)")
+    if body != "":
+        raise ExtractError("Checksum::add_u16 with the feature off is no longer empty")
+    body = fn_body(ut, r"pub fn matches\(&self, expected: u16\) -> bool", "Checksum::matches")
+    if body != "self.as_u16() == expected || (self.0 == 0xffff && expected == 0)":
+        raise ExtractError(f"Checksum::matches: body outside the kernel grammar: `{body}`")
+    lines += ["/-- `Checksum::matches` -/",
+              "def matches_ (as_u16 self_0 expected : Nat) : Bool :=",
+              "  as_u16 == expected || (self_0 == 65535 && expected == 0)"]
+    # Control::new, ControlFlags::new, TypeOfService::new : `Self( expr )`
+    for (src, hdr, name, params, bools, what) in (
+        (tc, r"pub const fn new\(urg: bool, ack: bool, psh: bool, rst: bool, syn: bool, fin: bool\) -> Self", "control_new",
+         "(urg ack psh rst syn fin : Bool)", {"urg", "ack", "psh", "rst", "syn", "fin"}, "Control::new"),
+        (ip, r"pub const fn new\(may_fragment: bool, is_last_fragment: bool\) -> Self", "control_flags_new",
+         "(may_fragment is_last_fragment : Bool)", {"may_fragment", "is_last_fragment"}, "ControlFlags::new"),
+        (ip, r"pub const fn new\(\s*precedence: Precedence,\s*delay: Delay,\s*throughput: Throughput,\s*reliability: Reliability,\s*\) -> Self", "type_of_service_new",
+         "(precedence delay throughput reliability : Nat)", set(), "TypeOfService::new"),
+    ):
+        body = fn_body(src, hdr, what)
+        m = re.fullmatch(r"Self\(\s*(.+?),?\s*\)", body)
+        if not m:
+            raise ExtractError(f"{what}: body outside the kernel grammar: `{body}`")
+        lines += [f"/-- `{what}` -/", f"def {name} {params} : Nat :=", "  " + Expr(m.group(1), 8, bools).parse()]
+    lines += ["end Elvis.Gen.Codec", ""]
+    write_if_changed("Codec.lean", "\n".join(lines))
 
 
 def main():
     check_message_immutability()
     gen_sim_cert()
     subnet_kernels()
+    codec_extract()
     consts = ["-- GENERATED from /repo sources by tools/extract.py on every check; do not edit", "namespace Elvis.Gen", "end Elvis.Gen", ""]
     consts = ["-- GENERATED from /repo sources by tools/extract.py on every check; do not edit", "namespace Elvis.Gen"]
     # C11: reassembly timer lower bound (segment.rs `const TLB: u8 = 15;`)
